@@ -7,6 +7,7 @@ Case: {"op": "sys", "devices": [definition | {"chain": [partial definitions...],
        "clients": ["net" | "net-also" | "snoop:<driver index>"], "ops": [...], "oracles": [...]}
   driver ops  ["a"|"s", di, g, v, e, value]  ["st", di, g, v, state]  ["ev", di, g, v, bool]  ["eg", di, g, bool]
   client ops  ["cw", ci, device, property, {element: python value spec}]     assign + submit
+              ["lagbatch", ci, [driver ops]]                                 the driver ops back to back while client ci's control connection lags its BLOB connection
               ["hs", ci, device|None, property|None]                        another handshake (getProperties for everything / a device / a property)
 After every operation all in-flight bytes are delivered (quiescence).  Observed: every driver's state (encoded as for the
 `dev` component) and every client's mirror (as for the `cli` component).
@@ -189,6 +190,22 @@ def run_case(case):
                     for en, val in values.items():
                         vec[en].value = comp_dev.py_value(val) if isinstance(val, dict) else val
                     vec.submit()
+                elif op[0] == "lagbatch":
+                    # several driver operations back to back while the server->client direction of client ci's CONTROL
+                    # connection lags behind its BLOB connection (a legitimate network schedule); then everything is delivered
+                    down = clients[op[1]].control_connection_handler.down
+                    held, feed = [], down.feed
+                    down.feed = held.append
+                    try:
+                        for sub in op[2]:
+                            comp_dev.apply_op(drivers[sub[1]], defns[sub[1]], [sub[0]] + sub[2:])
+                            for _ in range(40):
+                                await asyncio.sleep(0)
+                        await quiesce([p for p in pipes if p is not down])
+                    finally:
+                        down.feed = feed
+                        for data in held:
+                            feed(data)
                 elif op[0] == "hs":
                     clients[op[1]].handshake(op[2] if len(op) > 2 else None, op[3] if len(op) > 3 else None)
             except Exception as e:  # noqa
@@ -213,6 +230,21 @@ def run_case(case):
             return asyncio.run(main())
     finally:
         indi.message.now = old_now
+
+
+def blob_redefined_then_updated(ops, defns):
+    """does the batch (re)define a BLOB property (enabling it or its group) and later publish an update of it?"""
+    defined = set()
+    for op in ops:
+        di = op[1]
+        groups = defns[di]["groups"]
+        if op[0] == "ev" and op[4] and groups[op[2]]["vectors"][op[3]]["kind"] == "blob":
+            defined.add((di, op[2], op[3]))
+        elif op[0] == "eg" and op[3]:
+            defined |= {(di, op[2], vi) for vi, v in enumerate(groups[op[2]]["vectors"]) if v["kind"] == "blob"}
+        elif op[0] in ("a", "s", "st") and (di, op[2], op[3]) in defined:
+            return True
+    return False
 
 
 def wire_len_estimate(value):
@@ -262,9 +294,12 @@ def run_impl(case, outcome):
     # known finding: an element longer than the junk-recovery threshold on a thresholded connection (uploads; BLOBs to an Also client)
     big = any(wire_len_estimate(v) > 2048 for op in case["ops"] if op[0] == "cw" for v in op[4].values())
     big_also = any(wire_len_estimate(op[5]) > 2048 for op in case["ops"] if op[0] in ("a", "s") and len(op) > 5) and "net-also" in case["clients"]
+    if any(op[0] == "lagbatch" and blob_redefined_then_updated(op[2], defns) for op in case["ops"]):
+        # known finding: a BLOB property's definition (control connection) overtaken by a later update of it (BLOB connection)
+        case["kf_keys"] = ["two-connection-reordering"]
     if big or big_also:
         case["kf_keys"] = ["element-over-threshold"]
-    else:
+    elif not any(op[0] == "lagbatch" for op in case["ops"]):
         # correspondence: the Lean deployment model (Model/Sys.lean), step by step from the observed state:
         # the observed next state must be one the model allows (any interleaving of control and BLOB connection)
         kinds = ["%s %s %s" % (not c.startswith("snoop"), c.startswith("snoop"), c == "net-also") for c in case["clients"]]
@@ -405,6 +440,26 @@ def gen_c01(rng, tier):
                 ops.append(["hs", ci] + rng.choice([[None, None], [d["name"], None], [d["name"], rng.choice(vs)], [d["name"], "NOSUCH"], ["NODEV", None]]))
         yield {"op": "sys", "devices": devices, "clients": clients, "frag": rng.choice(["1024", "1", "random"]), "frag_seed": rng.randrange(10 ** 6),
                "ops": ops, "oracles": ["C01"]}
+
+
+def gen_c01_lag(rng, tier):
+    """driver operations back to back (no quiescence in between) while a network client's control connection lags its BLOB connection"""
+    for k in range(40 if tier == "thorough" else 8):
+        dev = blob_device()
+        dev["groups"][0]["vectors"][0]["enabled"] = rng.random() < 0.5
+        # 1. batches that do not (re)define the BLOB property: must converge
+        batch = []
+        for _ in range(rng.randint(2, 6)):
+            batch.append(rng.choice([["a", 0, 0, 1, 0, {"t": "v%d" % rng.randrange(9)}], ["st", 0, 0, 1, rng.choice(comp_dev.STATES)],
+                                     ["ev", 0, 0, 1, rng.random() < 0.5], ["st", 0, 0, 0, rng.choice(comp_dev.STATES)],
+                                     ["a", 0, 0, 0, 0, {"b": "%02x" % rng.randrange(256), "fmt": ".x"}]]))
+        yield {"op": "sys", "devices": [dev], "clients": ["net", "snoop:0"], "frag": rng.choice(["1024", "1", "random"]), "frag_seed": rng.randrange(10 ** 6),
+               "ops": [["lagbatch", 0, batch], ["a", 0, 0, 1, 0, {"t": "after"}]], "oracles": ["C01"]}
+    # 2. the BLOB property is defined and then updated within the batch: its definition is overtaken (known finding)
+    dev = blob_device()
+    dev["groups"][0]["vectors"][0]["enabled"] = False
+    yield {"op": "sys", "devices": [dev], "clients": ["net"], "frag": "1024", "frag_seed": 1,
+           "ops": [["lagbatch", 0, [["ev", 0, 0, 0, True], ["st", 0, 0, 0, "Busy"]]]], "oracles": ["C01"]}
 
 
 def gen_c06(rng, tier):
